@@ -17,6 +17,7 @@ import (
 	"mellium.im/xmpp/receipts"
 	"mellium.im/xmpp/stanza"
 	"verif.sim/simrt"
+	"verif.sim/simrt/simnet"
 )
 
 // C06 — every correlated wait ends exactly once with its own reply or its
@@ -43,6 +44,7 @@ type reqCall struct {
 	gotName   string
 	gotType   string
 	retStep   int
+	pad int // bytes of padding in the request's payload
 	// when the call's context ended or will end (its deadline, or the instant of the explicit cancel if that came first)
 	ctxEndAt time.Duration
 }
@@ -107,7 +109,12 @@ func readResp(r xmlstream.TokenReadCloser, prog int, c *reqCall) {
 }
 
 func doReq(ctx context.Context, s *xmpp.Session, c *reqCall) {
-	q := xmlstream.Wrap(nil, xml.StartElement{Name: xml.Name{Space: "urn:verif", Local: "q"}, Attr: []xml.Attr{{Name: xml.Name{Local: "n"}, Value: c.id}}})
+	var pad xml.TokenReader
+	if c.pad > 0 {
+		// a payload that takes several writes on the connection
+		pad = xmlstream.Token(xml.CharData(strings.Repeat("p", c.pad)))
+	}
+	q := xmlstream.Wrap(pad, xml.StartElement{Name: xml.Name{Space: "urn:verif", Local: "q"}, Attr: []xml.Attr{{Name: xml.Name{Local: "n"}, Value: c.id}}})
 	iq := stanza.IQ{ID: c.id, Type: stanza.GetIQ}
 	if len(c.id)%2 == 0 {
 		iq.Type = stanza.SetIQ
@@ -230,6 +237,12 @@ func runC06(rc *RC) {
 	if ch.Chance("workload", 1, 3) {
 		rc.S.PausePerm = 10
 	}
+	// a sixth of the runs: the transport refuses a write (once, or from then on) while requests are on their way out
+	wf := ch.Chance("faults", 1, 6)
+	if wf {
+		rc.S.PausePerm = 0
+		e.SUT.WriteErrAt, e.SUT.WriteErr, e.SUT.WritePartial, e.SUT.WriteErrOnce = e.SUT.Writes+ch.Range("faults", 1, 5), simnet.ErrInjected, ch.Int("faults", 60), ch.Chance("faults", 1, 2)
+	}
 	nReq := ch.Range("workload", 1, 4)
 	var calls []*reqCall
 	n := 0
@@ -249,6 +262,14 @@ func runC06(rc *RC) {
 			}
 			if ch.Chance("workload", 1, 4) {
 				c.cancelAt = time.Duration(ch.Range("workload", 0, 20)) * 20 * time.Millisecond
+			}
+			if wf {
+				// the write-fault configuration: nobody gives up for three minutes, so that a serve loop that waits for a
+				// caller which has long returned with a write error shows as a stall; requests take several writes
+				c.timeout, c.cancelAt = 3*time.Minute, 0
+				if (c.kind == "SendIQ" || c.kind == "SendIQElement" || c.kind == "SendMessage" || c.kind == "SendPresence") && ch.Chance("workload", 2, 3) {
+					c.pad = ch.Range("workload", 4200, 12000)
+				}
 			}
 			pl = append(pl, c)
 			calls = append(calls, c)
@@ -318,7 +339,12 @@ func runC06(rc *RC) {
 				doReq(ctx, e.Sess, c)
 				c.returns++
 				c.done, c.ctxErr, c.retStep = true, ctx.Err(), rc.S.Steps
-				simrt.Settle(cancel, "h:cancel")
+				if wf {
+					// an application that uses one long-lived context for all its requests: nothing ends when a call returns
+					rc.OnCleanup(cancel)
+				} else {
+					simrt.Settle(cancel, "h:cancel")
+				}
 			}
 		}))
 	}
@@ -452,6 +478,9 @@ func runC06(rc *RC) {
 		if c.returns != 1 {
 			rc.Failf("C06.c1", "returns!=1:"+c.kind, "%s id=%s returned %d times", c.kind, c.id, c.returns)
 		}
+		if c.err != nil && wf && errors.Is(c.err, simnet.ErrInjected) {
+			continue // the transport refused the request: the call reports that
+		}
 		if c.err != nil {
 			if c.ctxErr == nil || !errors.Is(c.err, c.ctxErr) {
 				rc.Failf("C06.c1", "error-not-ctx:"+c.kind, "%s id=%s returned %v but its context error is %v", c.kind, c.id, c.err, c.ctxErr)
@@ -485,6 +514,9 @@ func runC06(rc *RC) {
 				continue
 			}
 			rc.Evals["C06.c1"]++
+			if wf && errors.Is(c.err, simnet.ErrInjected) {
+				continue // the call had failed with the transport's error and was on its way out
+			}
 			if h.step < c.retStep && h.at < c.ctxEndAt {
 				rc.Failf("C06.c1", "reply-to-handler-while-caller-waits:"+c.kind, "%s id=%s returned %v at step %d, but its reply %s <%s type=%s> had reached the handler at step %d, t=%v, while the call was waiting and its context had not ended (it ended at t=%v)", c.kind, c.id, c.err, c.retStep, p.marker, p.name, p.typ, h.step, h.at, c.ctxEndAt)
 			}
